@@ -507,4 +507,69 @@ Section Iter.
         destruct (eval_deterministic_fuel _ _ _ _ _ _ _ _ _ _ _ _ _ Hb Hb') as [_ [_ <-]];
         eapply IH; [exact Hr' | lia] end.
   Qed.
+
+  (* the same for ForEach: [foreach_iter ... k s j lo hi]: the task TkForEach fi e iv kv vv p k body
+     is started in state s at entry k of the table; its j-th iteration from here allocates the
+     cells lo <= c < hi (value, key and index variables first) *)
+  Inductive foreach_iter fi e iv kv vv p body : nat -> state -> nat -> nat -> nat -> Prop :=
+  | FI_here k s tb key val e1 s1 e2 s2 e3 s3 f o e' s4 :
+      nth_error (st_heap (bump s)) p = Some tb -> nth_error tb k = Some (key, val) ->
+      declare_opt vv val (push_scope e) (bump s) = (e1, s1) ->
+      declare_opt kv (of_key key) e1 s1 = (e2, s2) ->
+      declare_opt iv (VInt (Z.of_nat k)) e2 s2 = (e3, s3) ->
+      eval P host limit f (TkCard fi e3 body) s3 = ROk o e' s4 ->
+      foreach_iter fi e iv kv vv p body k s 0 (length (st_cells s)) (length (st_cells s4))
+  | FI_later k s tb key val e1 s1 e2 s2 e3 s3 f vs e' s4 j lo hi :
+      nth_error (st_heap (bump s)) p = Some tb -> nth_error tb k = Some (key, val) ->
+      declare_opt vv val (push_scope e) (bump s) = (e1, s1) ->
+      declare_opt kv (of_key key) e1 s1 = (e2, s2) ->
+      declare_opt iv (VInt (Z.of_nat k)) e2 s2 = (e3, s3) ->
+      eval P host limit f (TkCard fi e3 body) s3 = ROk (ONorm vs) e' s4 ->
+      foreach_iter fi e iv kv vv p body (S k) s4 j lo hi ->
+      foreach_iter fi e iv kv vv p body k s (S j) lo hi.
+
+  Lemma foreach_iter_lb fi e iv kv vv p body k s j lo hi :
+    foreach_iter fi e iv kv vv p body k s j lo hi -> length (st_cells s) <= lo.
+  Proof.
+    induction 1 as [| k s tb key val e1 s1 e2 s2 e3 s3 f vs e' s4 j lo hi Ht Hk H1 H2 H3 Hb _ IH]; [lia|].
+    apply declare_opt_cells in H1, H2, H3. destruct H1 as [H1 _], H2 as [H2 _], H3 as [H3 _]. cbn in H1.
+    apply eval_ext in Hb. destruct Hb as [Hb _]. lia.
+  Qed.
+
+  Theorem iteration_cells_distinct_foreach fi e iv kv vv p body k s j1 lo1 hi1 j2 lo2 hi2 :
+    foreach_iter fi e iv kv vv p body k s j1 lo1 hi1 -> foreach_iter fi e iv kv vv p body k s j2 lo2 hi2 ->
+    j1 < j2 ->
+    lo1 <= hi1 /\ hi1 <= lo2 /\ ((vv <> None \/ kv <> None \/ iv <> None) -> lo1 < hi1).
+  Proof.
+    intros H1. revert j2 lo2 hi2.
+    induction H1 as [k s tb key val e1 s1 e2 s2 e3 s3 f o e' s4 Ht Hk D1 D2 D3 Hb
+                    | k s tb key val e1 s1 e2 s2 e3 s3 f vs e' s4 j lo hi Ht Hk D1 D2 D3 Hb Hr IH];
+      intros j2 lo2 hi2 H2 Hlt.
+    - inversion H2; subst; [lia|].
+      repeat match goal with
+             | A : nth_error ?l ?i = Some ?x, B : nth_error ?l ?i = Some ?y |- _ =>
+                 rewrite A in B; inversion B; subst; clear B
+             | A : declare_opt ?n ?v ?en ?st = (?a, ?b), B : declare_opt ?n ?v ?en ?st = (?c, ?d) |- _ =>
+                 rewrite A in B; inversion B; subst; clear B
+             end.
+      match goal with Hb' : eval _ _ _ _ _ _ = ROk (ONorm _) _ _ |- _ =>
+        destruct (eval_deterministic_fuel _ _ _ _ _ _ _ _ _ _ _ _ _ Hb Hb') as [_ [_ <-]] end.
+      match goal with Hr' : foreach_iter _ _ _ _ _ _ _ _ _ _ _ _ |- _ => apply foreach_iter_lb in Hr' end.
+      pose proof (declare_opt_cells _ _ _ _ _ _ D1) as [A1 A2]. cbn in A1, A2.
+      pose proof (declare_opt_cells _ _ _ _ _ _ D2) as [B1 B2].
+      pose proof (declare_opt_cells _ _ _ _ _ _ D3) as [C1 C2].
+      pose proof (eval_ext _ _ _ _ _ _ _ _ _ Hb) as [Hb1 _].
+      split; [lia|]. split; [lia|]. intros [Hi | [Hi | Hi]];
+        [specialize (A2 Hi) | specialize (B2 Hi) | specialize (C2 Hi)]; lia.
+    - inversion H2; subst; [lia|].
+      repeat match goal with
+             | A : nth_error ?l ?i = Some ?x, B : nth_error ?l ?i = Some ?y |- _ =>
+                 rewrite A in B; inversion B; subst; clear B
+             | A : declare_opt ?n ?v ?en ?st = (?a, ?b), B : declare_opt ?n ?v ?en ?st = (?c, ?d) |- _ =>
+                 rewrite A in B; inversion B; subst; clear B
+             end.
+      match goal with Hb' : eval _ _ _ _ _ _ = ROk (ONorm _) _ _, Hr' : foreach_iter _ _ _ _ _ _ _ _ _ _ _ _ |- _ =>
+        destruct (eval_deterministic_fuel _ _ _ _ _ _ _ _ _ _ _ _ _ Hb Hb') as [_ [_ <-]];
+        eapply IH; [exact Hr' | lia] end.
+  Qed.
 End Iter.
